@@ -781,6 +781,18 @@ def p6g_checks(ctx):
             otag = f"p6g-orphans-{where}-{side}"
         else:
             otag = "p6g-orphans-none"
+            if len({t for t, _ in A["cells"]}) == len(A["cells"]):
+                # relabellings that change ONE thing only: the order of the cells inside the types (points and blocks in
+                # place), or the order of the type blocks (points and cells in place)
+                ident = list(range(len(A["points"])))
+                if (i // 6) % 2 == 0:
+                    B = py_relabel(A, ident, [perm_of_kind(rng, len(rows), rng.choice(["reversal", "random", "transposition"]))
+                                              for _, rows in A["cells"]])
+                    kind, noise, otag = "cells-only", 0.0, "p6g-cells-only"
+                else:
+                    B = py_relabel(A, ident, [list(range(len(rows))) for _, rows in A["cells"]])
+                    B["cells"] = B["cells"][::-1]
+                    kind, noise, otag = "blocks-only", 0.0, "p6g-blocks-only"
         pairs.append((A, B, ["p6g-pipeline", "style=" + tg["style"], f"relabel={kind}", f"noise={noise}", otag], noise))
     sort_checks(ctx, pairs)
     ladder_checks(ctx, pairs, [0])
@@ -832,18 +844,24 @@ def p6g_checks(ctx):
         A = mg6.big_lattice(nx, ny, dim=dim, style=style, scale=rng.choice([1.0, 2.5]), offset=rng.choice([0.0, -5.0]))
         B = mg6.fast_relabel(rng, A, kind)
         n = len(A["points"])
+        noise = 0.0
+        if style in ("quad", "pixel") and n < 60000:
+            # coordinate noise far below the tolerance (1e-12 of the largest coordinate; lattice spacing >= 1)
+            noise = 1e-12 * max(abs(c) for p in A["points"] for c in p)
+            B["points"] = [[c + rng.uniform(-1, 1) * noise for c in p] for p in B["points"]]
         if n < 2000:
             B = mg6.insert_orphans(rng, B, "front", 2)
         a, b = mg6.to_fc_storage(A), mg6.to_fc_storage(B)
         for role, objs in (("A-vs-B", (a, b)), ("B-vs-A", (b, a))):
             obs, nf = impl_compare_st(None, None, objs=objs)
-            ctx.case(("p6g-big", n, style, dim, kind, role), nontrivial=True, tags=["p6g-big", f"p6g-npoints={n}", role, f"relabel={kind}"])
+            ctx.case(("p6g-big", n, style, dim, kind, role), nontrivial=True,
+                     tags=["p6g-big", f"p6g-npoints={n}", role, f"relabel={kind}", "p6g-big-noise" if noise else "p6g-big-noise-free"])
             if not passes_st(obs) or nf != _nfields(A):
                 case = {"kind": "big", "args": [nx, ny, dim, style], "npoints": n, "relabel": kind, "role": role}
                 if n < 2000:
                     case = _st_case(A, B, None, None) if role == "A-vs-B" else _st_case(B, A, None, None)
                 ctx.violation(case, obs[:300], "1:<every field passed>", what=f"relabelled {n}-point lattice does not compare as passed")
-        if n < 2000:
+        if n < 2000 and not noise:
             sa, sb = impl_sorted(A), impl_sorted(B)
             if sa != sb or isinstance(sa, str):
                 ctx.violation({"kind": "canon", "a": A, "b": B}, _diff(sa, sb), "identical sorted representations",
